@@ -1421,16 +1421,22 @@ class _TextReader:
         token = self.tok.get()
         what = token.value
         if what == "id":
-            self.id = self.tok.get_int()
+            self.id = self.tok.get_uint16()
         elif what == "flags":
             while True:
                 token = self.tok.get()
                 if not token.is_identifier():
                     self.tok.unget(token)
                     break
-                self.flags = self.flags | dns.flags.from_text(token.value)
+                try:
+                    flags = dns.flags.from_text(token.value)
+                except KeyError:
+                    raise dns.exception.SyntaxError(f"unknown flag '{token.value}'")
+                if flags > 0xFFFF:
+                    raise dns.exception.SyntaxError(f"flag '{token.value}' out of range")
+                self.flags = self.flags | flags
         elif what == "edns":
-            self.edns = self.tok.get_int()
+            self.edns = self.tok.get_uint8()
             self.ednsflags = self.ednsflags | (self.edns << 16)
         elif what == "eflags":
             if self.edns < 0:
@@ -1440,18 +1446,34 @@ class _TextReader:
                 if not token.is_identifier():
                     self.tok.unget(token)
                     break
-                self.ednsflags = self.ednsflags | dns.flags.edns_from_text(token.value)
+                try:
+                    flags = dns.flags.edns_from_text(token.value)
+                except KeyError:
+                    raise dns.exception.SyntaxError(
+                        f"unknown EDNS flag '{token.value}'"
+                    )
+                if flags > 0xFFFF:
+                    raise dns.exception.SyntaxError(
+                        f"EDNS flag '{token.value}' out of range"
+                    )
+                self.ednsflags = self.ednsflags | flags
         elif what == "payload":
-            self.payload = self.tok.get_int()
+            self.payload = self.tok.get_uint16()
             if self.edns < 0:
                 self.edns = 0
         elif what == "opcode":
             text = self.tok.get_string()
-            self.opcode = dns.opcode.from_text(text)
+            try:
+                self.opcode = dns.opcode.from_text(text)
+            except ValueError:
+                raise dns.exception.SyntaxError(f"opcode '{text}' out of range")
             self.flags = self.flags | dns.opcode.to_flags(self.opcode)
         elif what == "rcode":
             text = self.tok.get_string()
-            self.rcode = dns.rcode.from_text(text)
+            try:
+                self.rcode = dns.rcode.from_text(text)
+            except ValueError:
+                raise dns.exception.SyntaxError(f"rcode '{text}' out of range")
         else:
             raise UnknownHeaderField
         self.tok.get_eol()
@@ -1483,7 +1505,10 @@ class _TextReader:
         except Exception:
             rdclass = dns.rdataclass.IN
         # Type
-        rdtype = dns.rdatatype.from_text(token.value)
+        try:
+            rdtype = dns.rdatatype.from_text(token.value)
+        except ValueError:
+            raise dns.exception.SyntaxError(f"type '{token.value}' out of range")
         rdclass, rdtype, _, _ = self.message._parse_rr_header(
             section_number, name, rdclass, rdtype
         )
@@ -1521,6 +1546,8 @@ class _TextReader:
             raise dns.exception.SyntaxError
         except Exception:
             ttl = 0
+        if ttl < 0 or ttl > dns.ttl.MAX_TTL:
+            raise dns.exception.SyntaxError("TTL out of range")
         # Class
         try:
             rdclass = dns.rdataclass.from_text(token.value)
@@ -1532,7 +1559,10 @@ class _TextReader:
         except Exception:
             rdclass = dns.rdataclass.IN
         # Type
-        rdtype = dns.rdatatype.from_text(token.value)
+        try:
+            rdtype = dns.rdatatype.from_text(token.value)
+        except ValueError:
+            raise dns.exception.SyntaxError(f"type '{token.value}' out of range")
         rdclass, rdtype, deleting, empty = self.message._parse_rr_header(
             section_number, name, rdclass, rdtype
         )
